@@ -314,22 +314,34 @@ impl<K, V, A: Allocator> CaoHashMap<K, V, A> {
 
             let result = std::ptr::read(self.values.as_ptr().add(i));
             self.hashes_mut()[i] = 0;
+            self.count -= 1;
 
             // if the consecutive buckets are not empty, move them back, so lookups dont fail
-            // and they aren't in their optimal position
             //
+            let cap = self.capacity();
             let mut i = i; // track the last empty slot
-            let mut j = (i + 1) % self.capacity();
+            let mut j = (i + 1) % cap;
             while self.hashes()[j] != 0 {
-                // if the jth item is not in its optimal bucket, then move it back to the empty
-                // slot
-                if (self.hashes()[j] % self.capacity() as u64) != j as u64 {
-                    self.hashes_mut()[i] = self.hashes()[j];
-                    std::ptr::swap(self.keys.as_ptr().add(i), self.keys.as_ptr().add(j));
-                    std::ptr::swap(self.values.as_ptr().add(i), self.values.as_ptr().add(j));
+                // move the jth item back to the empty slot if the empty slot lies on its probe
+                // path, i.e. cyclically between its optimal bucket and j
+                let h = self.hashes()[j];
+                let home = Self::home_ind(h, cap);
+                if (j + cap - i) % cap <= (j + cap - home) % cap {
+                    self.hashes_mut()[i] = h;
+                    self.hashes_mut()[j] = 0;
+                    std::ptr::copy_nonoverlapping(
+                        self.keys.as_ptr().add(j),
+                        self.keys.as_ptr().add(i),
+                        1,
+                    );
+                    std::ptr::copy_nonoverlapping(
+                        self.values.as_ptr().add(j),
+                        self.values.as_ptr().add(i),
+                        1,
+                    );
                     i = j;
                 }
-                j = (j + 1) % self.capacity();
+                j = (j + 1) % cap;
             }
 
             return Some(result);
@@ -417,7 +429,7 @@ impl<K, V, A: Allocator> CaoHashMap<K, V, A> {
 
         // improve uniformity via fibonacci hashing
         // in wasm sizeof usize is 4, so multiply our already 32 bit hash
-        let mut ind = (needle.wrapping_mul(2654435769) as usize) % len;
+        let mut ind = Self::home_ind(needle, len);
         let hashes = self.hashes();
         let keys = self.keys.as_ptr();
         loop {
@@ -430,6 +442,12 @@ impl<K, V, A: Allocator> CaoHashMap<K, V, A> {
             }
             ind = (ind + 1) % len;
         }
+    }
+
+    /// The optimal bucket of a hash
+    #[inline]
+    fn home_ind(hash: u64, capacity: usize) -> usize {
+        (hash.wrapping_mul(2654435769) as usize) % capacity
     }
 
     fn hashes(&self) -> &[u64] {
